@@ -76,41 +76,43 @@ theorem allOK_of_shapeSnap {t : List MavenElem} (h : shapeSnap t = true) : allOK
     have : e = snapshotElem := by simpa [shapeSnap] using h
     subst this; decide
 
+theorem allOK_cons {e : MavenElem} {t : List MavenElem} (he : elemOK e = true) (hs : sepOK e = true)
+    (ht : allOK t = true) : allOK (e :: t) = true := by
+  simp only [allOK, List.all_cons, Bool.and_eq_true]
+  exact ⟨⟨he, hs⟩, ht⟩
+
 theorem allOK_of_shapeNum {t : List MavenElem} (h : shapeNum t = true) : allOK t = true := by
   cases t with
   | nil => rfl
   | cons e t =>
-    unfold shapeNum at h
-    split at h
-    · rename_i hc
+    by_cases hc : (isNumE e && sepOK e) = true
+    · simp only [shapeNum, hc, ↓reduceIte] at h
       simp only [Bool.and_eq_true] at hc
-      have := allOK_of_shapeSnap h
-      simp [allOK, elemOK_of_num hc.1, hc.2] at *; exact this
-    · exact allOK_of_shapeSnap h
+      exact allOK_cons (elemOK_of_num hc.1) hc.2 (allOK_of_shapeSnap h)
+    · simp only [shapeNum, hc, Bool.false_eq_true, ↓reduceIte] at h
+      exact allOK_of_shapeSnap h
 
 theorem allOK_of_shapeQual {t : List MavenElem} (h : shapeQual t = true) : allOK t = true := by
   cases t with
   | nil => rfl
   | cons e t =>
-    unfold shapeQual at h
-    split at h
-    · rename_i hc
+    by_cases hc : (isQualE e && sepOK e) = true
+    · simp only [shapeQual, hc, ↓reduceIte] at h
       simp only [Bool.and_eq_true] at hc
-      have := allOK_of_shapeNum h
-      simp [allOK, elemOK_of_qual hc.1, hc.2] at *; exact this
-    · exact allOK_of_shapeNum h
+      exact allOK_cons (elemOK_of_qual hc.1) hc.2 (allOK_of_shapeNum h)
+    · simp only [shapeQual, hc, Bool.false_eq_true, ↓reduceIte] at h
+      exact allOK_of_shapeNum h
 
 theorem allOK_of_shapeNums {t : List MavenElem} (h : shapeNums t = true) : allOK t = true := by
   induction t with
   | nil => rfl
   | cons e t ih =>
-    unfold shapeNums at h
-    split at h
-    · rename_i hc
-      simp only [Bool.and_eq_true, beq_iff_eq] at hc
-      have := ih h
-      simp [allOK, elemOK_of_num hc.1, sepOK, hc.2] at *; exact this
-    · exact allOK_of_shapeQual h
+    by_cases hc : (isNumE e && e.sep == 46) = true
+    · simp only [shapeNums, hc, ↓reduceIte] at h
+      simp only [Bool.and_eq_true] at hc
+      exact allOK_cons (elemOK_of_num hc.1) (by simp [sepOK, hc.2]) (ih h)
+    · simp only [shapeNums, hc, Bool.false_eq_true, ↓reduceIte] at h
+      exact allOK_of_shapeQual h
 
 /-! ## fine elements, trimmed, no ZeroDotQual ⇒ `tailOK` -/
 
@@ -124,20 +126,17 @@ theorem isEmpty_of_vsNone_eq {e : MavenElem} (h : vsNone e = .eq) : isEmptyMaven
   unfold isEmptyMavenElem
   simp only [mavenEmptyQualifier] at *
   generalize mavenOrder e.str = o at *
-  split at h
-  · simp [mkNone, compare_int] at h
-  · split at h
-    · simp [mkNone, compare_int] at h
-    · simp only [mkNone, compare_int] at h
+  by_cases hn : (mcat e == versionNumeric) = true
+  · simp [hn, mkNone, compare_int] at h
+  · by_cases ho : o > -2
+    · simp [hn, ho, mkNone, compare_int] at h
+    · simp only [hn, ho, Bool.false_eq_true, ↓reduceIte, mkNone, compare_int] at h
       have : o = -2 := by
         by_cases h1 : (-45 : Int) < -(e.sep.toNat : Int)
         · simp [h1] at h
         · by_cases h2 : (-45 : Int) = -(e.sep.toNat : Int)
-          · by_cases h3 : (-2 : Int) < o
-            · simp [h1, h2, h3] at h
-            · by_cases h4 : (-2 : Int) = o
-              · omega
-              · simp [h2, h3, h4] at h
+          · simp [h2] at h
+            omega
           · simp [h1, h2] at h
       simp [this]
 
@@ -177,7 +176,7 @@ theorem tailOK_of_trimmed {t : List MavenElem} (hok : allOK t = true) (htr : tri
           simp only [trimmedTail, Bool.and_eq_true] at htr
           have := htr.1
           simp [h45, pad46, isEmptyMavenElem] at this
-        simp only [allOK, List.all_cons, Bool.and_eq_true] at hokt
+        simp only [List.all_cons, Bool.and_eq_true] at hokt
         obtain ⟨⟨hfe, hfs⟩, _⟩ := hokt
         have hf46 : f.sep = 46 := by
           rcases sepOK_cases hfs with h | h
